@@ -1,13 +1,150 @@
-/- line-protocol handlers of the "expr" family (stub: filled in by the family's model) -/
+/- line-protocol handlers of the "expr" family: DSL constructors/operators, canonicaliser, mutate helpers,
+   and evaluation of the specification's `den` on a concrete (mixture-of-products) environment -/
 import Y0.Model.Graph
 import Y0.Model.Expr
+import Y0.Model.Dsl
+import Y0.Model.Canon
+import Y0.Model.Mutate
+import Y0.Spec.Sem
+import Y0.Lemmas.SemScope
 import Y0.Driver.Graph
 
 namespace Y0.Driver
-open Y0 Sexp
+open Y0 Sexp Codec
+
+def okE (e : Expr) : Sexp := tagged "ok" [exprToSexp e]
+
+def replyE : Except Err Expr → Sexp
+  | .ok e => okE e
+  | .error err => err.toSexp
+
+def replyB : Except Err Bool → Sexp
+  | .ok b => tagged "ok" [atom (if b then "true" else "false")]
+  | .error err => err.toSexp
+
+def exprBoolOf? : Sexp → Option Bool
+  | atom "true" => some true
+  | atom "false" => some false
+  | _ => none
+
+/-- `none` | `(some v…)` -/
+def optVarsOf? : Sexp → Option (Option (List Var))
+  | atom "none" => some none
+  | list (atom "some" :: vs) => do pure (some (← vs.mapM varOf?))
+  | _ => none
+
+def wfExpr? (s : Sexp) : Option Expr := do
+  let e ← exprOf? s
+  if e.wf then some e else none
+
+/-! ### a concrete environment: finite mixture of product measures over the counterfactual variables -/
+
+def ratOf? : Sexp → Option Rat
+  | list [n, d] => do
+      let n ← (match n with | atom s => s.toInt? | _ => none)
+      let d ← asNat? d
+      pure ((n : Rat) / (d : Rat))
+  | _ => none
+
+abbrev CfKey := Option Name × Name × List (Name × Nat)
+
+def pairLt (a b : Name × Nat) : Bool := a.1 < b.1 || (a.1 == b.1 && a.2 < b.2)
+
+def cfKeyOf? : Sexp → Option CfKey
+  | list [pop, n, dos] => do
+      let pop ← (match pop with | atom "none" => some none | p => (asNat? p).map some)
+      pure (pop, ← asNat? n, sortBy pairLt (← asPairs? dos))
+  | _ => none
+
+structure Comp where
+  w : Rat
+  rows : List (CfKey × List Rat)
+
+def compOf? : Sexp → Option Comp
+  | list [w, list rows] => do
+      let rows ← rows.mapM (fun r => match r with
+        | list [k, list ps] => do pure (← cfKeyOf? k, ← ps.mapM ratOf?)
+        | _ => none)
+      pure { w := ← ratOf? w, rows := rows }
+  | _ => none
+
+def lookupPmf (rows : List (CfKey × List Rat)) (k : CfKey) : Option (List Rat) :=
+  (rows.find? (fun r => r.1 == k)).map (·.2)
+
+/-- missing table entries give this sentinel so that a mismatch with the oracle is visible -/
+def sentinel : Rat := -1000003
+
+def mixPr (card : Name → Nat) (comps : List Comp) (pop : Option Name) (atoms : List Atom) : Rat :=
+  let atoms := dedup' (atoms.map fun a => ({ a with dos := sortBy pairLt a.dos } : Atom))
+  if atoms.any (fun a => atoms.any (fun b => a.conflicts b)) then 0
+  else if atoms.any (fun a => card a.name ≤ a.val) then 0
+  else
+    (comps.map fun c =>
+      c.w * (atoms.map fun a =>
+        match lookupPmf c.rows (pop, a.name, a.dos) with
+        | some pmf => (match pmf[a.val]? with | some p => p | none => sentinel)
+        | none => sentinel).foldl (· * ·) 1).foldl (· + ·) 0
+
+def envOf? : Sexp → Option Env
+  | list [atom "env", list (atom "cards" :: cs), list (atom "mix" :: comps)] => do
+      let cs ← cs.mapM asPair?
+      let comps ← comps.mapM compOf?
+      let card : Name → Nat := fun n => match cs.find? (fun p => p.1 == n) with | some p => p.2 | none => 2
+      pure { card := card, pr := mixPr card comps, q := fun _ _ => 0 }
+  | _ => none
+
+def valOf? (s : Sexp) : Option Val := do
+  let ps ← asPairs? s
+  pure (fun n => match ps.find? (fun p => p.1 == n) with | some p => p.2 | none => 0)
+
+def ratToSexp (r : Rat) : Sexp := list [atom (toString r.num), atom (toString r.den)]
+
+/-! ### dispatch -/
 
 def handleExpr (op : String) (args : List Sexp) : Option Sexp :=
   match op, args with
+  | "canonicalize", [e, o] => do
+      let e ← wfExpr? e
+      let o ← optVarsOf? o
+      pure (replyE (canonicalize e o))
+  | "canonicalize_twice", [e, o] => do
+      let e ← wfExpr? e
+      let o ← varsOf? o
+      pure (match canon (upgradeOrdering o) e with
+        | .ok c1 => (match canon (upgradeOrdering o) c1 with
+            | .ok c2 => tagged "ok" [exprToSexp c1, exprToSexp c2]
+            | .error err => err.toSexp)
+        | .error err => err.toSexp)
+  | "canonicalize_pair", [a, b, o] => do
+      let a ← wfExpr? a
+      let b ← wfExpr? b
+      let o ← varsOf? o
+      pure (match canon (upgradeOrdering o) a, canon (upgradeOrdering o) b with
+        | .ok ca, .ok cb => tagged "ok" [exprToSexp ca, exprToSexp cb]
+        | .error err, _ => err.toSexp
+        | _, .error err => err.toSexp)
+  | "canonical_equal", [a, b] => do pure (replyB (canonicalExprEqual (← wfExpr? a) (← wfExpr? b)))
+  | "mul", [a, b] => do pure (replyE ((← wfExpr? a).mul (← wfExpr? b)))
+  | "div", [a, b] => do pure (replyE ((← wfExpr? a).div (← wfExpr? b)))
+  | "lt", [a, b] => do pure (replyB (.ok ((← wfExpr? a).ltE (← wfExpr? b))))
+  | "eq", [a, b] => do pure (replyB (.ok ((← wfExpr? a).eqb (← wfExpr? b))))
+  | "product_safe", [list es] => do pure (okE (productSafe (← es.mapM wfExpr?)))
+  | "sum_safe", [e, r, s] => do pure (okE (sumSafe (← wfExpr? e) (← varsOf? r) (← exprBoolOf? s)))
+  | "marginalize", [e, r] => do pure (okE ((← wfExpr? e).marginalize (← varsOf? r)))
+  | "normalize_marginalize", [e, r] => do pure (replyE ((← wfExpr? e).normalizeMarginalize (← varsOf? r)))
+  | "conditional", [e, r] => do pure (replyE ((← wfExpr? e).conditional (← varsOf? r)))
+  | "simplify", [e] => do pure (replyE (← wfExpr? e).simplify)
+  | "chain_expand", [p, r, o] => do pure (replyE (chainExpand (← wfExpr? p) (← exprBoolOf? r) (← optVarsOf? o)))
+  | "fraction_expand", [p] => do pure (replyE (fractionExpand (← wfExpr? p)))
+  | "bayes_expand", [p] => do pure (replyE (bayesExpand (← wfExpr? p)))
+  | "contract", [e] => do pure (okE (contract (← wfExpr? e)))
+  | "recursive_contract", [e] => do pure (replyE (recursiveContract (← wfExpr? e)))
+  | "markov", [e] => do pure (replyB (hasMarkovPostcondition (← wfExpr? e)))
+  | "well_scoped", [e] => do pure (replyB (.ok (WellScoped (← exprOf? e))))
+  | "den", [e, env, s, s'] => do
+      let e ← exprOf? e
+      let env ← envOf? env
+      pure (tagged "ok" [ratToSexp (den env (← valOf? s') e (← valOf? s))])
   | _, _ => none
 
 end Y0.Driver
